@@ -365,6 +365,14 @@ def run_glom(case, entry='glom'):
             res = glom.Spec(spec, scope=kw.get('scope', {})).glom(target, scope={})
         elif entry == 'spec-own':
             res = glom.Spec(spec, scope=kw.get('scope', {})).glom(target)
+        elif entry == 'spec-reuse':
+            sp = glom.Spec(spec)
+            try:
+                sp.glom(r.build(case['target']), **kw)
+            except Exception:
+                pass
+            del pyval.CALL_LOG[:]
+            res = sp.glom(target)
         else:
             res = glom.Glommer().glom(target, spec, **kw)
         out = {'ok': r.encode(res)}
